@@ -121,20 +121,19 @@ def anchorHolds (e : Env) (a : Anchor) (p : Nat) : Bool :=
   | .boundary => (before.map e.isWord).getD false != (after.map e.isWord).getD false
   | .nonboundary => (before.map e.isWord).getD false == (after.map e.isWord).getD false
 
+/-- the `len` runes at `s` equal the `len` runes at `t` (through simple case folding when `ci`);
+    false when either slice leaves the text -/
+def sliceEq (e : Env) (ci : Bool) (s t len : Nat) : Bool :=
+  let a := (e.text.drop s).take len
+  let b := (e.text.drop t).take len
+  a.length == len && b.length == len && (List.zipWith (fun x y => if ci then e.eqCi x y else x == y) a b).all id
+
 /-- compare `len` runes of the text starting at `s` with the runes at `pos` in direction `rtl` -/
 def refMatch (e : Env) (ci rtl : Bool) (s len pos : Nat) : Option Nat :=
   if rtl then
     if pos < len then none
-    else
-      let a := (e.text.drop s).take len
-      let b := (e.text.drop (pos - len)).take len
-      if a.length == len && b.length == len && (List.zipWith (fun x y => if ci then e.eqCi x y else x == y) a b).all id
-      then some (pos - len) else none
-  else
-    let a := (e.text.drop s).take len
-    let b := (e.text.drop pos).take len
-    if a.length == len && b.length == len && (List.zipWith (fun x y => if ci then e.eqCi x y else x == y) a b).all id
-    then some (pos + len) else none
+    else if sliceEq e ci s (pos - len) len then some (pos - len) else none
+  else if sliceEq e ci s pos len then some (pos + len) else none
 
 def canGo (hi : Option Nat) (cnt : Nat) : Bool :=
   match hi with
